@@ -60,6 +60,7 @@ type Obligation struct {
 	goal    Term
 	Trivial bool `json:"trivial,omitempty"`
 	Model   string `json:"-"`
+	Replay  *ReplayResult `json:"-"`
 }
 
 func (o *Obligation) OK() bool {
@@ -268,6 +269,27 @@ func (fv *FV) run() {
 		case *ast.RangeStmt:
 			ord++
 			fv.loopOrd[n] = ord
+		case *ast.CallExpr:
+			// x.m() with a pointer-receiver method on an addressable local takes &x implicitly
+			if se, ok := ast.Unparen(n.Fun).(*ast.SelectorExpr); ok {
+				if sel, ok := fv.info.Selections[se]; ok && sel.Kind() == types.MethodVal {
+					if m, ok := sel.Obj().(*types.Func); ok {
+						if sig, ok := m.Type().(*types.Signature); ok && sig.Recv() != nil {
+							if _, ptrRecv := sig.Recv().Type().Underlying().(*types.Pointer); ptrRecv {
+								if id, ok := ast.Unparen(se.X).(*ast.Ident); ok {
+									if o, ok := fv.info.ObjectOf(id).(*types.Var); ok && !isPkgLevel(o) && !isObjectType(o.Type()) {
+										if _, isPtr := o.Type().Underlying().(*types.Pointer); !isPtr {
+											if _, isIface := o.Type().Underlying().(*types.Interface); !isIface {
+												fv.boxed[o] = true
+											}
+										}
+									}
+								}
+							}
+						}
+					}
+				}
+			}
 		case *ast.UnaryExpr:
 			if n.Op == token.AND {
 				if id, ok := ast.Unparen(n.X).(*ast.Ident); ok {
@@ -454,6 +476,11 @@ func (fv *FV) checkExit(ex *Exit, k int) {
 		fv.obligeNamed(ex.env, "post", fmt.Sprintf("post:%s@return%d", cl.Label, k+1), at,
 			fmt.Sprintf("postcondition %q at return on line %d", cl.Text, line), t)
 	}
+	for _, cl := range u.C.EnsuresLocal {
+		t := fv.specTerm(ex.env, cl, &specCtx{old: fv.entry, bind: bind, results: ex.results, preAlloc: fv.entry.alloc, lenient: true})
+		fv.obligeNamed(ex.env, "post", fmt.Sprintf("post:%s@return%d", cl.Label, k+1), at,
+			fmt.Sprintf("postcondition over locals %q at return on line %d", cl.Text, line), t)
+	}
 	if u.C.HasMod && !u.C.TrustFrame {
 		fv.checkFrame(ex, k, at)
 	}
@@ -520,6 +547,12 @@ func (fv *FV) checkFrame(ex *Exit, k int, at ast.Node) {
 				foot[l.comp] = append(foot[l.comp], l.ref)
 			}
 		case "elems":
+			if isObjectType(l.typ) {
+				for _, c := range leafComps(l.typ) {
+					wholeComp[c] = true
+				}
+				break
+			}
 			c := "E$" + sanitize(elemKey(l.typ))
 			foot[c] = append(foot[c], l.slice.T)
 		case "map":
@@ -609,6 +642,9 @@ func (eng *Engine) discharge(fv *FV) {
 				}
 			} else if o.Status == "sat" {
 				o.Model = o.Output
+			}
+			if eng.replay && o.Expect == "unsat" && o.Status != "unsat" && o.Kind != "canary" && o.Kind != "reach" {
+				o.Replay = fv.tryReplayObl(o, filepath.Join(dir, fmt.Sprintf("replay%03d", i)))
 			}
 		}(i, o)
 	}
